@@ -235,9 +235,10 @@ def model_line(case, floats):
 # ---------------------------------------------------------------------------------------
 
 def _shards(items, n):
+    # round-robin: expensive cases generated next to one another are spread over the workers
+    # (results are keyed by case id, so the order within a shard does not matter)
     n = max(1, min(n, len(items)))
-    size = (len(items) + n - 1) // n
-    return [items[i:i + size] for i in range(0, len(items), size)]
+    return [items[i::n] for i in range(n)]
 
 
 def _run_harness_shard(binary, cases, timeout_ms):
